@@ -22,6 +22,8 @@ def c17(run):
     r_file.run_raw_packet(run, P)
     r_file.run_load_order(run, P)
     r_file.run_track_order(run, P)
+    from rules import r_cmpbound as _cb
+    _cb.run_identity(run, P)
     run.min_instances('R-FILE-MODE', 14)
     run.min_instances('R-PERSIST', 6)
     run.assumptions = ASSUME_COMMON + ["fopen mode strings are literals (a non-literal mode is counted and not judged)"]
@@ -147,9 +149,12 @@ def c01(run):
     r_fixup.run_maxopt(run, P)
     r_fixup.run_rebase(run, P)
     r_fixup.run_capacity(run, P)
+    from rules import r_loststore
+    run.require_count(r_loststore.run(run, P, units=('coap_pdu.c',)) >= 1 or run.cfg != 'base', 'R-LOST-STORE: no store followed by a resetting callee found in coap_pdu.c')
     from rules import r_width as _rw
     _rw.run_f(run, P)
     _rw.run_g(run, P)
+    _rw.run_h(run, P)
     from rules import r_stalecopy
     r_stalecopy.run_scalar(run, P)       # no stale copy of the running option number across an appending call
     run.min_instances('R-CODEC-TAB', 30)
@@ -168,6 +173,9 @@ def c03(run):
     r_width.run_b(run, P)
     r_width.run_d(run, P)
     r_width.run_g(run, P)
+    r_width.run_h(run, P)
+    from rules import r_lenread
+    r_lenread.run_pair_advance(run, P)
     r_codec.run(run, P)
     r_codec.run_toklen(run, P)
     r_codec.run_tokext(run, P)
@@ -198,9 +206,12 @@ def c04(run):
     r_fixup.run_maxopt(run, P)
     r_fixup.run_rebase(run, P)
     r_fixup.run_capacity(run, P)
+    from rules import r_loststore
+    run.require_count(r_loststore.run(run, P, units=('coap_pdu.c',)) >= 1 or run.cfg != 'base', 'R-LOST-STORE: no store followed by a resetting callee found in coap_pdu.c')
     from rules import r_width as _rw
     _rw.run_f(run, P)
     _rw.run_g(run, P)
+    _rw.run_h(run, P)
     from rules import r_stalecopy
     r_stalecopy.run_scalar(run, P)
     from rules import r_codec
@@ -229,6 +240,8 @@ def c05(run):
     r_stream.run_phase_local(run, P)
     r_stream.run_empty_unit(run, P)
     r_stream.run_buffer_param(run, P)
+    from rules import r_width as _rw5
+    _rw5.run_h(run, P)                   # the declared length of a stream message is computed without wrapping before it is compared with the limits
     r_stream.run_cap(run, P)
     r_stream.run_cap_own(run, P)
     run.min_instances('R-STREAM-ADV', 4)
@@ -252,6 +265,8 @@ def c16(run):
     r_uriclass.run_hexcase(run, P)
     r_uriclass.run_dot_root(run, P)
     r_uriclass.run_default_ports(run, P)
+    from rules import r_cmpbound as _cb
+    _cb.run_identity(run, P)
     from rules import r_codec
     r_codec.run_opt_cursor(run, P)
     from rules import r_sizefill
@@ -366,6 +381,7 @@ def c10(run):
     r_reply.run_ack_con(run, P)
     r_reply.run_resolve_order(run, P)
     r_reply.run_helper_verdict(run, P)
+    r_reply.run_handler_bound(run, P)
     from rules import r_restart
     r_restart.run(run, P)
     from rules import r_uriclass
@@ -501,6 +517,10 @@ def c02(run):
     r_range.run_token_ext(run, P)
     from rules import r_dangfield
     r_dangfield.run(run, P)
+    from rules import r_uaf
+    r_uaf.run(run, P)                    # nothing is used after it was handed to a destructor or handed over with its release callback
+    r_lenread_ = __import__('rules.r_lenread', fromlist=['x'])
+    r_lenread_.run_pair_advance(run, P)
     from rules import r_codec
     r_codec.run_tokext(run, P)            # the stream reader frames messages with coap_pdu_parse_size(): its token-extension sums agree with the decoder's
     r_shift.run(run, P, units=('oscore.c', 'oscore_cbor.c'))
@@ -514,6 +534,8 @@ def c02(run):
     r_stream.run_phase_local(run, P)
     r_stream.run_empty_unit(run, P)
     r_stream.run_buffer_param(run, P)
+    from rules import r_width as _rw5
+    _rw5.run_h(run, P)                   # the declared length of a stream message is computed without wrapping before it is compared with the limits
     r_parsegate.run(run, P)
     r_fixup.run_stale(run, P)
     from rules import r_cmpbound
